@@ -62,6 +62,13 @@ pub struct Oracles {
     pub c16: bool,
     /// C08: compare the last client's views with a twin execution without client 0's visibility calls.
     pub c08_twin: bool,
+    /// C11: resend-until-acknowledged and silence at rest (`c11_no_resend`: also the "not re-sent" direction).
+    pub c11: bool,
+    pub c11_no_resend: bool,
+    /// C10: all-or-nothing per entity / related group and message size limits.
+    pub c10: bool,
+    /// C12: MutateTickReceived fires exactly once, only when all messages of the tick were applied.
+    pub c12: bool,
 }
 
 #[derive(Clone, Debug, Serialize)]
@@ -80,6 +87,8 @@ pub struct ReplCell {
     pub oracles: Oracles,
     /// Number of lock-step closure rounds.
     pub closure_rounds: usize,
+    /// Junk acknowledgement indices may be injected before a server frame.
+    pub junk_acks: bool,
 }
 
 #[derive(Clone, Copy, Debug, PartialEq, Eq)]
@@ -115,6 +124,9 @@ pub struct ReplExec {
     dropped_leftover: bool,
     /// Views of the last client after each of its frames (twin comparison).
     observed_views: Vec<ClientView>,
+    /// C11: tick at which each (client, entity) was last sent in full (set-up / update message).
+    pub c11_baseline: BTreeMap<(usize, u8), u32>,
+    pub setup_done: bool,
 }
 
 const UPD: usize = 0;
@@ -122,7 +134,7 @@ const MUT: usize = 1;
 const ACK: usize = 0;
 
 impl ReplCell {
-    fn clients(&self) -> usize {
+    pub fn clients(&self) -> usize {
         self.cfg.clients.len()
     }
 
@@ -435,7 +447,18 @@ impl ReplCell {
         Ok(())
     }
 
-    fn lockstep_round(&self, x: &mut ReplExec, tick: bool) -> Result<(), Violation> {
+    /// Wire-level oracles evaluated after every server frame.
+    fn check_server_frame(&self, x: &mut ReplExec) -> Result<(), Violation> {
+        if self.oracles.c11 && x.setup_done {
+            crate::props::c11::check_tick(self, x)?;
+        }
+        if self.oracles.c10 && x.setup_done {
+            crate::props::c10::check_sizes(self, x)?;
+        }
+        Ok(())
+    }
+
+    pub fn lockstep_round(&self, x: &mut ReplExec, tick: bool) -> Result<(), Violation> {
         for c in 0..self.clients() {
             for ch in 0..x.sim.client_channels.len() {
                 x.sim.deliver_to_server(c, ch, &Sel::All);
@@ -443,6 +466,7 @@ impl ReplCell {
         }
         x.sim.server_frame(tick).map_err(|v| self.own(v))?;
         self.check_wire_hidden(x)?;
+        self.check_server_frame(x)?;
         for c in 0..self.clients() {
             for ch in 0..x.sim.server_channels.len() {
                 x.sim.deliver_to_client(c, ch, &Sel::All);
@@ -454,7 +478,7 @@ impl ReplCell {
     }
 
     /// A library panic is reported under the property being checked.
-    fn own(&self, mut v: Violation) -> Violation {
+    pub fn own(&self, mut v: Violation) -> Violation {
         if v.property.is_empty() {
             v.property = self.property.to_string();
         }
@@ -531,6 +555,8 @@ impl Scenario for ReplCell {
             outcome: 0,
             dropped_leftover: false,
             observed_views: Vec::new(),
+            c11_baseline: BTreeMap::new(),
+            setup_done: false,
         };
         // Handshake / settle: two lock-step rounds, then the initial operations, then settle.
         let r = (|| -> Result<(), Violation> {
@@ -551,6 +577,13 @@ impl Scenario for ReplCell {
         }
         x.sim.steps.clear();
         x.states.clear();
+        x.setup_done = true;
+        let tick = x.sim.server_tick();
+        for c in 0..self.clients() {
+            for slot in 0..x.sim.ents.len() as u8 {
+                x.c11_baseline.insert((c, slot + 1), tick);
+            }
+        }
         if self.rounds == 0 {
             x.phase = Phase::Leftover;
         }
@@ -578,6 +611,9 @@ impl Scenario for ReplCell {
                     let mut alts = vec![("deliver".to_string(), 0)];
                     if self.env.hold_acks && n > 0 {
                         alts.push(("hold".into(), 1));
+                    }
+                    if self.junk_acks {
+                        alts.push(("deliver + junk indices".into(), 1));
                     }
                     return Some(ChoicePoint::env("acks", alts));
                 }
@@ -624,10 +660,15 @@ impl Scenario for ReplCell {
                 self.advance(x);
             }
             Phase::Acks(c) => {
-                if alt == 0 {
-                    x.sim.deliver_to_server(c, ACK, &Sel::All);
-                } else {
+                let label = self.next(x).unwrap().alts[alt].clone();
+                if label == "hold" {
                     x.line.push_str(&format!(" acks(c{c}) held;"));
+                } else {
+                    x.sim.deliver_to_server(c, ACK, &Sel::All);
+                }
+                if label.contains("junk") {
+                    x.line.push_str(&format!(" junk acks(c{c});"));
+                    x.sim.inject_junk_acks(c);
                 }
                 // other client channels (events) are always delivered in this scenario
                 for ch in 1..x.sim.client_channels.len() {
@@ -685,6 +726,7 @@ impl Scenario for ReplCell {
                     x.sim.note(line);
                     x.sim.server_frame(x.round_tick).map_err(|v| self.own(v))?;
                     self.check_wire_hidden(x)?;
+                    self.check_server_frame(x)?;
                     let sent: Vec<String> = x
                         .sim
                         .wire
@@ -723,6 +765,9 @@ impl Scenario for ReplCell {
             self.lockstep_round(x, true)?;
         }
         let mut r = self.final_check(x);
+        if r.is_ok() && self.oracles.c11 {
+            r = crate::props::c11::quiescence(self, x);
+        }
         if r.is_ok() && self.oracles.c08_twin && self.clients() >= 2 {
             r = self.twin_check(x);
         }
